@@ -60,6 +60,46 @@ class Api:
         return build.make_request(self.files, self.targets, self.parameter(scratch), dep_mods=self.dep_mods)
 
 
+def into_subpackage(api, sub="core"):
+    """Move every target file of `api` into the proto sub-package <root>.<sub> (file names, package, every type reference, the
+    fully qualified names in annotations and in the auxiliary option files) and add a sibling sub-package <root>.zsibling, so that the
+    API's root package stays what it was.  Sibling sub-packages are the layout that works on the unchanged tree (DESIGN 10.2);
+    snippets are switched off (they fail for services in sub-packages there)."""
+    from google.protobuf import text_format
+    pkg = api.info["pkg"]
+    assert not api.info.get("sub"), "already in a sub-package"
+    pdir = pkg.replace(".", "/")
+    new_targets = []
+    for f in api.files:
+        if f.pb.name not in api.targets:
+            continue
+        txt = text_format.MessageToString(f.pb)
+        txt = txt.replace(pkg + ".", pkg + "." + sub + ".").replace(pdir + "/", pdir + "/" + sub + "/")
+        new = type(f.pb)()
+        text_format.Parse(txt, new)
+        if new.package == pkg:
+            new.package = pkg + "." + sub
+        f.pb.CopyFrom(new)
+        if hasattr(f, "fq"):
+            pass
+        new_targets.append(f.pb.name)
+    api.targets[:] = new_targets
+    sib = File(f"{pdir}/zsibling/sibling.proto", pkg + ".zsibling", deps=[])
+    sib.message("SiblingThing").field("label", "string")
+    api.add(sib)
+    for key, (fname, text) in list(api.aux.items()):
+        api.aux[key] = (fname, text.replace('"' + pkg + ".", '"' + pkg + "." + sub + "."))
+    api.options = [o for o in api.options if not o.startswith("autogen-snippets")] + ["autogen-snippets=false"]
+    api.info["sub"] = sub
+    api.tags.add("whole-api-in-a-sub-package")
+    return api
+
+
+def runner_root(api):
+    """Import package of the module that exports the API's clients (the sub-package's module when the API lives in one)."""
+    return lib_root(api.info, api.options) + ("." + api.info["sub"] if api.info.get("sub") else "")
+
+
 def write_synth_pb2(req, names, root):
     """Write the module protoc --python_out would emit for each named file."""
     byname = {p.name: p for p in req.proto_file}
@@ -200,8 +240,13 @@ def conventional(rng, name, feat=None):
         d2.field("leaf", "sint64")
         d2.field("back", P + ".Aux")
         d1.field("deeper", P + ".Aux.Inner.Deep.Deeper")
-        d1.enum("Kind", "KIND_UNSPECIFIED", "ONE")
+        dk = d1.enum("Kind", "KIND_UNSPECIFIED", "ONE")
         inner.field("deep", P + ".Aux.Inner.Deep")
+        # the OUTERMOST message refers to types nested two and three levels below itself (singular enum, repeated message, map value)
+        aux.field("grand_kind", dk)
+        aux.field("grand_deepers", P + ".Aux.Inner.Deep.Deeper", repeated=True)
+        aux.map("grand_by_key", "string", P + ".Aux.Inner.Deep")
+        tags.add("outer-message-uses-grandchild-types")
         ma = tf.message("MutA")
         ma.field("b", P + ".MutB")          # forward reference
         ma.field("later", P + ".Later", repeated=True)
@@ -294,6 +339,10 @@ def conventional(rng, name, feat=None):
             q.field("tenant", "string", behaviors=rng.choice([[fb_.INPUT_ONLY, fb_.REQUIRED], [fb_.REQUIRED, fb_.IMMUTABLE]]))
             q.field("trace", "string")
             q.field("scope", "string", behaviors=[fb_.IMMUTABLE, fb_.REQUIRED])
+            # ... and a REQUIRED field whose name is a reserved word (its Python name differs from its proto name), declared late
+            q.field("note_hint", "string")
+            taken_ = {x.name for x in q.pb.field}
+            q.field(next(w_ for w_ in rng.sample(["type", "format", "from", "class", "global", "license"], 6) if w_ not in taken_), "string", required=True)
             tags.add("required-with-second-behavior-after-optional")
         s.rpc(f"Get{R}", P + f".Get{R}Request", P + "." + R,
               http={"get": f"/{uver}/{{name={name_glob}}}"}, sigs=["name"])
@@ -535,6 +584,32 @@ def conventional(rng, name, feat=None):
             else:
                 s.rpc(nm, P + ".OddRequest", P + ".OddReply")
         tags.add("odd-rpc-names")
+    if feat.get("int_path_var"):
+        # an HTTP path variable bound to a non-string scalar (the project's fragment test_required_non_string.proto has this shape)
+        rq_ = f.message("GetReadingRequest")
+        rq_.field("station", "string", required=True)
+        rq_.field("sequence", rng.choice(["int32", "int64", "uint32"]), required=True)
+        rd_ = f.message("Reading")
+        rd_.field("value", "double")
+        svcs[0].rpc("GetReading", P + ".GetReadingRequest", P + ".Reading",
+                    http={"get": f"/{uver}/{{station=stations/*}}/readings/{{sequence}}"}, sigs=["station,sequence"])
+        tags.add("non-string-path-variable")
+    if feat.get("reserved_path_var"):
+        # an HTTP path variable whose field is named by a reserved word (read from type_/from_, sent as type=/from=), one of them paginated
+        rq_ = f.message("GetSchemaRequest")
+        rq_.field("type", "string", required=True)
+        sc_ = f.message("SchemaInfo")
+        sc_.field("text", "string")
+        svcs[0].rpc("GetSchema", P + ".GetSchemaRequest", P + ".SchemaInfo", http={"get": f"/{uver}/{{type=schemaTypes/*}}"}, sigs=["type"])
+        lq_ = f.message("ListEntriesRequest")
+        lq_.field("from", "string", required=True)
+        lq_.field("page_size", "int32")
+        lq_.field("page_token", "string")
+        lo_ = f.message("ListEntriesResponse")
+        lo_.field("entries", P + ".SchemaInfo", repeated=True)
+        lo_.field("next_page_token", "string")
+        svcs[0].rpc("ListEntries", P + ".ListEntriesRequest", P + ".ListEntriesResponse", http={"get": f"/{uver}/{{from=shelves/*}}/entries"}, sigs=["from"])
+        tags.add("reserved-word-path-variable")
     if feat.get("iam_direct"):
         # google.iam.v1 types used directly, without the IAM mixin: a Policy field on a resource (cloudasset has one) and IAM
         # RPCs the API declares itself (pubsub, bigtable admin): the library then needs grpc-google-iam-v1 at run time
@@ -647,6 +722,20 @@ def wellformed(rng, name, zero_ns=False, extra_feat=None):
     api.info["feat"] = {k: v for k, v in feat.items()}
     if rng.random() < 0.4:
         add_dep_namesake_file(api, rng)
+    if rng.random() < 0.3:
+        # an RPC whose snake_case name is the base name of the file its types live in (rpc Lookup + lookup.proto), followed by another
+        # RPC that uses a type of that file: the module must be imported under an alias in the service's modules
+        main = [x for x in api.files if x.pb.name.endswith(f"/{name}.proto")][0]
+        pkg_ = api.info["pkg"]
+        fl = File(pkg_.replace(".", "/") + "/lookup.proto", pkg_, deps=list(STD_DEPS))
+        for mn in ("LookupRequest", "LookupReply", "SuggestRequest"):
+            fl.message(mn).field("text", "string")
+        api.add(fl)
+        main.pb.dependency.append(fl.pb.name)
+        svc0 = build.Svc(main.pb.service[0], main)
+        svc0.rpc("Lookup", f".{pkg_}.LookupRequest", f".{pkg_}.LookupReply")
+        svc0.rpc("Suggest", f".{pkg_}.SuggestRequest", f".{pkg_}.LookupReply")
+        api.tags.add("rpc-named-like-its-types-module")
     if rng.random() < 0.3:
         # google.api.default_host is optional: a service without it (next to services that have one) is still importable and usable
         # with an explicit endpoint
@@ -909,6 +998,11 @@ def layout_api(rng, name):
         tags.add("dependency-file-in-ancestor-package")
     nfiles = rng.randint(1, 4) if ver else 1
     names = rng.sample(ODD_FILE_NAMES, nfiles)
+    # a dotted file name next to (and after) the file whose name equals its sanitised form: k8s_min.proto, then k8s.min.proto
+    for dotted in ("file.with.dots", "v1.resources"):
+        if dotted in names and rng.random() < 0.6:
+            names.insert(names.index(dotted), dotted.replace(".", "_"))
+            api.tags.add("dotted-file-name-after-its-sanitised-twin")
     files = []
     for i, fn in enumerate(names):
         deps = list(STD_DEPS) + ([depf.pb.name] if depf else []) + [a.pb.name for a, _, _ in anc] + [x.pb.name for x in files]
@@ -1120,6 +1214,10 @@ def rest_api(rng, name, numeric=False, nmethods=10):
     shapes = ["get_name", "list_parent", "create_body_field", "update_nested", "act_star", "delete", "put_multi",
               "two_vars", "addl_get", "addl_body_mix", "addl_body_differs_field_then_star", "addl_body_differs_star_then_field", "int_var", "star_nested"]
     rng.shuffle(shapes)
+    # google.api.http puts no restriction on which verbs carry a body: DELETE (and GET) bindings with one are always among the drawn
+    shapes = ["delete_star_body", "delete_field_body"] + shapes
+    if rng.random() < 0.5:
+        shapes.insert(rng.randint(0, 4), "get_field_body")
     for i, shape in enumerate(shapes[:nmethods]):
         q = f.message(f"Req{i}")
         # path-bound fields are usually annotated REQUIRED in real APIs
@@ -1182,6 +1280,12 @@ def rest_api(rng, name, numeric=False, nmethods=10):
             kw = dict(http={"post": f"/{ver}/{{name=things/*}}:act"}, body="*")
         elif shape == "delete":
             kw = dict(http={"delete": f"/{ver}/{{name=things/*/parts/*}}"})
+        elif shape == "delete_star_body":
+            kw = dict(http={"delete": f"/{ver}/{{name=things/*}}:purge"}, body="*")
+        elif shape == "delete_field_body":
+            kw = dict(http={"delete": f"/{ver}/{{name=things/*/parts/*}}:drop"}, body="payload")
+        elif shape == "get_field_body":
+            kw = dict(http={"get": f"/{ver}/{{name=things/*}}:probe"}, body="payload")
         elif shape == "put_multi":
             kw = dict(http={"put": f"/{ver}/{{name=things/*/files/**}}"}, body="payload")
         elif shape == "two_vars":
@@ -1345,6 +1449,18 @@ def flat_api(rng, name):
             for p in x:
                 tags.add("sig:" + ("dotted" if "." in p else p))
         tags.add(f"nsigs:{len(sigs)}")
+    # a flattened MAP whose value type lives in another target file (only the synthesised entry message is in the request's own file)
+    fcom = File(f"vp/{name}/{ver}/common_tags.proto", pkg, deps=list(STD_DEPS))
+    api.add(fcom)
+    f.pb.dependency.append(fcom.pb.name)
+    tg = fcom.message("FarTag")
+    tg.field("key", "string")
+    tg.field("weight", "int32")
+    mq = f.message("TagRequest")
+    mq.field("name", "string")
+    mq.map("far_tags", "string", P + ".FarTag")
+    s.rpc("TagAll", P + ".TagRequest", P + ".Reply", sigs=["name,far_tags"])
+    tags.add("flattened-map-with-value-type-from-another-file")
     # a request type that lives in <word>.proto and has a field named <word> (dialogflow's session.proto / `session`): the flattened
     # parameter shadows the module the method body needs, whatever the spelling of the signature
     fsess = File(f"vp/{name}/{ver}/session.proto", pkg, deps=list(STD_DEPS))
@@ -1385,6 +1501,9 @@ ROUTING_FORMS = [
     # the bare form {key} is short for {key=*}
     ("bare_key_mid", [("table_name", "projects/*/{instance_id}/**")]),
     ("bare_key_whole", [("app_profile_id", "{routing_id}")]),
+    # reserved-word fields: read from the suffixed attribute, sent under the ORIGINAL name (the key of a template-less parameter is its field path)
+    ("plain_reserved", [("type", "")]),
+    ("nested_plain_reserved", [("sub.format", ""), ("type", "{kind=kinds/*}")]),
 ]
 ROUTING_FORMS_FIXED = [("empty_annotation", [])]
 IMPLICIT_FORMS = [
@@ -1411,6 +1530,7 @@ def routing_api(rng, name):
     sub = f.message("Sub")
     sub.field("id", "string")
     sub.field("region", "string")
+    sub.field("format", "string")
     rq = f.message("Req")
     rq.field("anchor", "string")
     rq.field("name", "string")
@@ -1707,13 +1827,16 @@ def lro_api(rng, name, broken=None, rest=False, subpkg=False, async_rest=False):
         else:
             prefix = rng.choice(["/lro/v1", "/v1beta9/ops", "/x"])
             in_apis = (rng.random() < 0.5) if rest is True else (rest == "listed")
-            rules = [{"selector": "google.longrunning.Operations.GetOperation", "get": prefix + "/{name=projects/*/operations/*}"},
+            rules = [{"selector": "google.longrunning.Operations.GetOperation", "get": prefix + "/{name=projects/*/operations/*}",
+                      # operations of other collections are polled through an additional binding
+                      "additional_bindings": [{"get": prefix + "/{name=organizations/*/operations/*}"},
+                                              {"get": prefix + "/{name=folders/*/locations/*/operations/*}"}]},
                      {"selector": "google.longrunning.Operations.CancelOperation", "post": prefix + "/{name=projects/*/operations/*}:cancel", "body": "*"},
                      {"selector": "google.longrunning.Operations.DeleteOperation", "delete": prefix + "/{name=projects/*/operations/*}"},
                      {"selector": "google.longrunning.Operations.ListOperations", "get": prefix + "/{name=projects/*}/operations"}]
             api.aux["service-yaml"] = ("svc.yaml", service_yaml(api, mixins=["operations"] if in_apis else [], rules={"operations": []}, extra_rules=rules,
                                                                  publishing=pub))
-            api.info["rest_lro"] = {"prefix": prefix, "operations_listed_under_apis": in_apis, "rules": True, "async": bool(async_rest)}
+            api.info["rest_lro"] = {"prefix": prefix, "operations_listed_under_apis": in_apis, "rules": True, "async": bool(async_rest), "additional": True}
             tags.update(["rest-lro", "ops-in-apis:" + str(in_apis)])
     return api
 
@@ -1773,6 +1896,9 @@ def retry_api(rng, name, subpkg=False):
     lr.field("next_page_token", "string")
     sa.rpc("List", P + ".ListReq", P + ".ListReply", http={"get": "/v1/{parent=shelves/*}/items"})
     api.info["http_shape"]["Alpha.List"] = "get"
+    # request-streaming methods are configured like any other (their default retry is built by the same table, per client kind)
+    sa.rpc("Upload", P + ".Req", P + ".Reply", cs=True)
+    sa.rpc("Chat", P + ".Req", P + ".Reply", cs=True, ss=True)
     timeouts = rng.sample([5, 12, 20, 33, 47, 60, 75, 90, 120], 6)
     # incl. durations that are not a whole number of milliseconds
     durs = ["0.1s", "0.5s", "1s", "1.25s", "0.250000000s", "2s", "0.05s", "0.0005s", "0.0125s", "1.0625s", "0.000250s"]
@@ -1810,6 +1936,8 @@ def retry_api(rng, name, subpkg=False):
     twin["retryableStatusCodes"] = rng.sample(others, rng.randint(1, 3))
     cfg.append({"name": [{"service": A, "method": pool[5]}], "timeout": f"{timeouts[5]}s", "retryPolicy": twin})
     tags.add("entry:same-backoff-other-codes")
+    cfg.append({"name": [{"service": A, "method": "Upload"}, {"service": A, "method": "Chat"}], "timeout": "41s", "retryPolicy": policy()})
+    tags.add("entry:request-streaming-methods")
     lp = policy()
     lp["retryableStatusCodes"] = sorted(set(lp["retryableStatusCodes"]) - {"NOT_FOUND"}) or ["UNAVAILABLE"]
     cfg.append({"name": [{"service": A, "method": "List"}], "timeout": f"{timeouts[4]}s", "retryPolicy": lp})
@@ -1913,7 +2041,7 @@ def reserved_api(name, words, position):
         s.rpc(f"Call{i}", P + f".Req{i}", P + ".Reply", **kw)
         item.update(rpc=f"Call{i}", req=f"{pkg}.Req{i}", inner=f"{pkg}.Inner{i}")
         api.info["items"].append(item)
-    api.options = ["transport=grpc+rest", "autogen-snippets=false"]
+    api.options = ["transport=grpc+rest", "autogen-snippets=false"] + (["metadata"] if position == "rpc" else [])
     api.info.update(pkg=pkg, version=ver, ns=["vp"], name=name, host=f"{name}.googleapis.com", position=position)
     return api
 
@@ -1921,7 +2049,10 @@ def reserved_api(name, words, position):
 def rand_pattern(rng):
     """A resource pattern from the grammar of C19."""
     form = rng.choice(["plain", "plain", "plain", "multi", "dstar", "singleton", "sep", "sep", "camel", "deep"])
-    vars_ = ["project", "location", "shelf", "book", "page", "line", "zone", "alpha_beta", "x1", "item_id"]
+    # (resource ids named like builtins of the generator's reserved list — object, type, format, ... — are ordinary in real APIs: the
+    # helper's keyword arguments and the keys of the parsed dict are those very names)
+    vars_ = ["project", "location", "shelf", "book", "page", "line", "zone", "alpha_beta", "x1", "item_id", "object", "type", "format",
+             "license", "hash", "list", "range"]
     rng.shuffle(vars_)
     colls = ["projects", "locations", "shelves", "books", "pages", "lines", "zones", "alphaBetas", "items", "things", "a", "v2data"]
     rng.shuffle(colls)
@@ -2090,7 +2221,7 @@ AUTOPOP_VIOLATIONS = ["unknown_method", "server_streaming", "client_streaming", 
                       "leading_dot_selector", "leading_dot_duplicate"]
 
 
-def autopop_api(rng, name, violation=None, plant=True, subpkg=False):
+def autopop_api(rng, name, violation=None, plant=True, subpkg=False, selective=False):
     """AIP-4235 shapes (C18).  subpkg: every service lives in the proto sub-package <root>.catalog (next to <root>.resources): the
     settings are validated and applied all the same."""
     from google.api import field_info_pb2
@@ -2131,7 +2262,8 @@ def autopop_api(rng, name, violation=None, plant=True, subpkg=False):
     r = f.message("Reply")
     r.field("ok", "bool")
     s = f.service("Ids", host=f"{name}.googleapis.com")
-    s.rpc("Create", P + ".Req", P + ".Reply", http={"post": "/v1/{name=things/*}:create"}, body="*")
+    # the auto-populated fields are also flattened parameters here: a value that arrives inside `request` is just as much the caller's
+    s.rpc("Create", P + ".Req", P + ".Reply", http={"post": "/v1/{name=things/*}:create"}, body="*", sigs=["name,request_id,opt_request_id", "name"])
     s.rpc("Fetch", P + ".Req", P + ".Reply", http={"get": "/v1/{name=things/*}"})
     s.rpc("Patch", P + ".Req", P + ".Reply", http={"patch": "/v1/{name=things/*}"}, body="sub", sigs=["name,payload"])
     s.rpc("Untouched", P + ".Req", P + ".Reply", http={"post": "/v1/{name=things/*}:untouched"}, body="*")
@@ -2180,7 +2312,12 @@ def autopop_api(rng, name, violation=None, plant=True, subpkg=False):
     if violation and plant:
         settings.insert(rng.randint(0, len(settings)), bad[violation])
     api.info["method_settings"] = settings
-    api.aux["service-yaml"] = ("svc.yaml", service_yaml(api, publishing={"method_settings": settings}))
+    pub_ = {"method_settings": settings}
+    if selective:
+        # selective generation is configured too (omit mode, every RPC listed): the method settings are validated all the same
+        pub_.update(selective_publishing(base, [f"{S}.{m_.name}" for m_ in f.pb.service[0].method]))
+        api.tags.add("selective-generation-configured")
+    api.aux["service-yaml"] = ("svc.yaml", service_yaml(api, publishing=pub_))
     api.options = ["transport=grpc+rest", "autogen-snippets=false"]
     api.info.update(pkg=base, version=ver, ns=["vp"], name=name, host=f"{name}.googleapis.com", sub="catalog" if subpkg else "")
     return api
@@ -2266,6 +2403,10 @@ def mixin_api(rng, name, mixins, rules_mode, own_iam=None, add_iam=False, transp
                 # a rule may leave the body out although the RPC's published annotation has one: everything then travels in the query
                 del r1["body"]
                 api.tags.add("mixin-rule-without-body")
+            elif sel.endswith(".SetIamPolicy") and rng.random() < 0.5:
+                # ... or name ONE field as the body: the other set fields (update_mask) then travel in the query
+                r1["body"] = "policy"
+                api.tags.add("mixin-rule-with-named-body-field")
             roll = rng.random()
             if roll < 0.25:
                 # a second binding on the same URI with another verb / body: the first binding stays the one in effect
@@ -2590,6 +2731,12 @@ def selective_api(rng, name):
     book.field("genre", gn)
     book.field("tags", P + ".Tag", repeated=True)
     book.field("tree", P + ".Tree")
+    # types reached ONLY as the value type of a map field (the synthesised entry message is the only edge to them)
+    chap = fs.message("Chapter")
+    chap.field("title", "string")
+    chap.field("kind", chap.enum("ChapterKind", "CHAPTER_KIND_UNSPECIFIED", "PROLOGUE", "BODY"))
+    book.map("chapters", "string", P + ".Chapter")
+    book.map("moods", "int32", fe.enum("Mood", "MOOD_UNSPECIFIED", "CALM", "TENSE"))
     author = f.message("Author")
     author.resource(f"{name}.googleapis.com/Author", "authors/{author}")
     author.field("name", "string")
@@ -2702,6 +2849,8 @@ def shared_types_api(rng, name):
     q = f.message("GetShapeRequest")
     q.field("name", "string")
     q.field("view", f.enum("View", "VIEW_UNSPECIFIED", "BASIC", "FULL"))
+    q.field("request_id", "string", uuid4=True)      # auto-populated where the method settings say so (also on internal methods)
+    api.info["autopop_candidates"] = ["Shapes.GetShape", "Shapes.FetchShape", "Painter.Repaint"]
     s = f.service("Shapes", host=f"{name}.googleapis.com")
     s.rpc("GetShape", P + ".GetShapeRequest", P + ".Shape", http={"get": "/v1/{name=shapes/*}"}, sigs=["name"])
     s.rpc("FetchShape", P + ".GetShapeRequest", P + ".Shape", http={"get": "/v1/{name=shapes/*}:fetch"})
